@@ -248,7 +248,7 @@ fn conditions() -> Vec<Option<ConditionRule>> {
 
 fn statements(tier: Tier) -> Vec<Statement> {
     let mut out = Vec::new();
-    let sids = [None, Some("s".to_owned())];
+    let sids = [None, Some("s".to_owned()), Some(String::new()), Some(" ".to_owned())];
     let effects = [Effect::Allow, Effect::Deny];
     let ps = principals();
     let cs = conditions();
@@ -708,7 +708,7 @@ pub fn run(ctx: &Ctx) -> (Acc, Report) {
     let sts = statements(ctx.tier);
     let n_st = sts.len();
     let versions = [None, Some(Version::V2012_10_17), Some(Version::V2008_10_17)];
-    let ids = [None, Some("id".to_owned())];
+    let ids = [None, Some("id".to_owned()), Some(String::new())];
     par_items(&mut acc, &sts, |a, i, st| {
         // statement-level shapes under One / More[1]
         for (vi, ver) in versions.iter().enumerate() {
